@@ -161,8 +161,11 @@ pub fn check_section(bytes: &[u8], key: u64, st: &mut Stats) -> Check {
             for &b in cuts.iter().skip(i).step_by(3) {
                 let sec = parent.section(a..b);
                 let fresh = proguard::ProguardMapping::new(&bytes[a..b]);
-                let got: Vec<String> = sec.iter().map(|i| item_key(&i)).collect();
-                let want: Vec<String> = fresh.iter().map(|i| item_key(&i)).collect();
+                // the bytes of a section are an input of their own: bounded pass first (a cut can create a malformed
+                // line that the whole input does not have)
+                records(&bytes[a..b])?;
+                let got: Vec<String> = sec.iter().take(b - a + 2).map(|i| item_key(&i)).collect();
+                let want: Vec<String> = fresh.iter().take(b - a + 2).map(|i| item_key(&i)).collect();
                 if got != want {
                     return Err(Fail::new("section-records", format!("section({a}..{b}) of a {}-byte mapping yields {} records, the same bytes as a new mapping yield {}", bytes.len(), got.len(), want.len())));
                 }
